@@ -111,6 +111,7 @@ type CallPlan struct {
 
 	c07     *c07Info
 	c05mode int
+	bad     string              // C08: what is wrong with this call ("" = a valid call)
 	byz     *byzInfo            // C06: what the byzantine peer did
 	bin     map[string][][]byte // original bytes of generated -Bin values
 
@@ -131,12 +132,14 @@ type PanicPlan struct {
 
 // Scenario is a whole run.
 type Scenario struct {
-	Prop     string
-	Handlers []HandlerCfg
-	Clients  []ClientCfg
-	Calls    []*CallPlan
-	PoolFIFO bool
-	Notes    map[string]int // generator-side probe counters
+	Prop          string
+	Handlers      []HandlerCfg
+	Clients       []ClientCfg
+	Calls         []*CallPlan
+	PoolFIFO      bool
+	CompFault     *compFault     // C08: one custom (de)compressor operation fails
+	CompFaultSide int            // 0 handler-side instances, 1 client-side instances
+	Notes         map[string]int // generator-side probe counters
 }
 
 // RawReq is a crafted HTTP request delivered straight to Handler.ServeHTTP.
